@@ -513,9 +513,13 @@ def module_view(src):
         warnings.simplefilter('always')
         try:
             compile(src, '<emitted>', 'exec', dont_inherit=True)
-            tree = ast.parse(src)
         except (SyntaxError, ValueError) as e:
             return dict(compiles=False, error=f'{type(e).__name__}: {e}', warnings=len(wl))
+    nwarn = len(wl)
+    with warnings.catch_warnings():
+        warnings.simplefilter('ignore')
+        tree = ast.parse(src)
+        skeleton = hashlib.sha1(ast.dump(strip_docstrings(ast.parse(src))).encode()).hexdigest()
     toks = []
     try:
         toks = [t for t in tokenize.generate_tokens(io.StringIO(src).readline) if t.type == tokenize.STRING]
@@ -531,8 +535,7 @@ def module_view(src):
             docs[name] = (nt, e.value.value)
         else:
             docs[name] = (0, '')
-    skeleton = hashlib.sha1(ast.dump(strip_docstrings(ast.parse(src))).encode()).hexdigest()
-    return dict(compiles=True, skeleton=skeleton, docs=docs, warnings=len(wl))
+    return dict(compiles=True, skeleton=skeleton, docs=docs, warnings=nwarn)
 
 
 _BCC = None
@@ -738,6 +741,8 @@ def main(chk, args):
         t0 = time.time()
         account_spec(chk, *spec.result())
         walls['spec_wait'] = round(time.time() - t0, 1)
+    t = os.times()                      # after the pool is gone: includes the workers and their TLC processes
+    chk.extra['cpu_s'] = round(t.user + t.system + t.children_user + t.children_system, 1)
     chk.exhaustive = not quick     # quick: parameter tuples are sampled for texts of 3+ tokens
     chk.rule = ('observations = one call of the real code each: (text, parameter tuple) for wrap and rst - texts are ALL token '
                 'strings up to 3 (quick) / 4 (thorough) tokens over the 16-token alphabet of Text.tla plus TLC random walks of '
